@@ -506,6 +506,14 @@ def replay(case):
                          ["."], carrier="toml", opt=case["opt"], val=case["val"], want=case["want"])
             if case["want"].get("column_width") != M.USIZE_MAX:
                 cases.append(partner)
+        if case.get("family") == "malformed-later-dir":
+            # a race between the exiting main thread and the writer threads: snapshots only, a few attempts
+            for _ in range(12):
+                obs = M.run_many(cases, strace=False)
+                found = judge_any(list(zip(cases, obs)), acc)
+                if found.get(id(case)):
+                    break
+            return found.get(id(case), [])
         obs = M.run_many(cases, strace=st)
         found = judge_any(list(zip(cases, obs)), acc)
         return found.get(id(case), [])
